@@ -119,15 +119,15 @@ type rtCase struct {
 	taskDur time.Duration
 	ops     []rtOp
 
-	jobs     []*rtJob
-	rejected int
-	snaps    map[uuid.UUID]*JobSnap
+	jobs      []*rtJob
+	rejected  int
+	snaps     map[uuid.UUID]*JobSnap
 	reloaded  bool
 	blocked   bool
-	contended bool // a request was made at the expiry of a start delay while a slow reader held the lock
+	contended bool          // a request was made at the expiry of a start delay while a slow reader held the lock
 	canary    time.Duration // worst lateness of a timer of duration d armed next to the case
-	errs     []string
-	trace    []string
+	errs      []string
+	trace     []string
 }
 
 func genRTCase(t *rapid.T) *rtCase {
